@@ -30,6 +30,8 @@ def demo_cmd():
     return ' '.join(cmd)
 res = {'id': pid}
 cmd = demo_cmd()
+import re as _re
+cmd = _re.sub(r"\s*;\s*echo\s+\"?exit=\$\?\"?\s*$", "", cmd) if cmd else cmd
 res['demo_cmd'] = cmd
 assert sh('git checkout -- src include CMakeLists.txt').returncode == 0
 r = sh('git apply --check OUT/patch.diff'); res['applies'] = r.returncode == 0
